@@ -79,7 +79,7 @@ class C16(Prop):
                     if clean and b in pool:
                         continue
                     pool.append(b)
-                lines.append([rng.randint(1, 9), b])
+                lines.append([rng.randint(1, 9) if rng.random() < 0.9 or clean else 0, b])
             true_counts = [m, sum(x for x, _ in lines), len(lines), ncat]
             counts = true_counts if clean else [rng.randint(0, 9) for _ in range(4)]
             cat_names = []
@@ -87,7 +87,8 @@ class C16(Prop):
                 cat_names = [[i + 1, ("c" + str(i)) if clean else rng.choice(NAME_POOL)] for i in range(ncat)]
             ext = "cat" if cls == "cat" else gen.infer_type([tuple(map(tuple, b)) for _, b in lines], m)
             yield {"kind": "clean" if clean else "dirty", "cls": cls, "ext": ext, "names": names,
-                   "cat_names": cat_names, "counts": counts, "lines": lines}
+                   "cat_names": cat_names, "counts": counts, "lines": lines,
+                   "spell": 0 if clean or rng.random() < 0.5 else rng.randint(1, 10 ** 6)}
 
     def _content(self, case):
         c = case["counts"]
@@ -101,8 +102,20 @@ class C16(Prop):
                 t += f"# CATEGORY NAME {k}: {nm}\n"
         for k, nm in case["names"]:
             t += f"# ALTERNATIVE NAME {k}: {nm}\n"
+        import random as _r
+        sty = _r.Random(repr(case["lines"]) + str(case.get("spell", 0)))
         for mlt, b in case["lines"]:
-            t += f"{mlt}: " + ", ".join(render_class(cl) for cl in b) + "\n"
+            parts = []
+            for cl in b:
+                txt = render_class(cl)
+                if case.get("spell") and len(cl) == 1 and sty.random() < 0.4:
+                    txt = "{" + txt + "}"           # a singleton written as a brace group
+                parts.append(txt)
+            sep = ", " if not case.get("spell") else sty.choice([", ", ",", " ,  "])
+            line = f"{mlt}: " + sep.join(parts)
+            if case.get("spell") and case["cls"] == "ord" and sty.random() < 0.3:
+                line += ","                           # trailing comma
+            t += line + "\n"
         return t
 
     def run_impl(self, case):
